@@ -27,7 +27,7 @@ ASSUMPTIONS = [
     "`% else:` after `% try:` is not generated (Mako lists only except/finally as try continuations)",
 ]
 MIN_NONTRIVIAL = 300
-REQUIRED_COUNTERS = ["renders_compared", "loop_attribute_reads", "exception_paths", "return_paths", "break_paths", "enable_loop_variants", "code_compiles"]
+REQUIRED_COUNTERS = ["renders_compared", "loop_attribute_reads", "exception_paths", "return_paths", "break_paths", "enable_loop_variants", "code_compiles", "loop_closure_renders"]
 
 _st = {}
 
@@ -561,8 +561,80 @@ def run_enable_loop(res):
         res.nontrivial("el", text, sorted(kw))
 
 
+def _loopvals(n):
+    """index, first, last, even, odd, reverse_index per iteration of a sized iterable of length n"""
+    return [dict(index=i, first=(i == 0), last=(i == n - 1), even=(i % 2 == 0), odd=(i % 2 == 1), reverse_index=n - i - 1) for i in range(n)]
+
+
+def run_loop_closures(res):
+    """`loop` read inside a construct that is written inside the `% for` body but compiled as a closure of the
+    enclosing callable (anonymous block, nested def, body of a call with content, def nested in such a body): it is
+    textually inside the loop, so it reports the innermost enclosing loop - whether or not the loop body also reads
+    `loop` directly, in the template body and inside a def alike.  Output is compared with whitespace removed."""
+    T = _st["Template"]
+    closures = {
+        "anon-block": ("", "<%block>[{R}]</%block>"),
+        "call-body": ('<%def name="cd()">${caller.body()}</%def>', '<%call expr="cd()">[{R}]</%call>'),
+        "ns-call-body": ('<%def name="cd()">${caller.body()}${caller.body()}</%def>', "<%self:cd>[{R}]</%self:cd>"),
+        "def-in-call-body": ('<%def name="cd()">${caller.nx()}</%def>', '<%call expr="cd()"><%def name="nx()">[{R}]</%def></%call>'),
+        "if-in-call-body": ('<%def name="cd()">${caller.body()}</%def>', '<%call expr="cd()">\n% if True:\n[{R}]\n% endif\n</%call>'),
+    }
+    nested_def = "<%def name=\"inner()\">[{R}]</%def>${{inner()}}"
+    attrs = ["index", "first", "last", "even", "odd", "reverse_index"]
+    iters = [("(10, 20, 30)", 3), ("'ab'", 2), ("[7]", 1), ("range(4)", 4)]
+    k = 0
+    for where in ("body", "def"):
+        for cname, (pre, tmpl) in list(closures.items()) + [("nested-def", ("", nested_def))]:
+            if cname == "nested-def" and where == "body":
+                continue  # a def written at body level is a top-level def, not a closure: it has no loop
+            for outside in (False, True):
+                for two_levels in (False, True):
+                    k += 1
+                    attr = attrs[k % len(attrs)]
+                    it, n = iters[k % len(iters)]
+                    if two_levels:
+                        # inner loop (2 items) inside the outer one: the closure reads the inner loop and its parent
+                        read = "${loop.%s}/${loop.parent.%s}/${loop.parent.parent is None}" % (attr, attr)
+                        inner = tmpl.replace("{R}", read).replace("${{", "${").replace("}}", "}")
+                        lines = ["% for o in " + it + ":", ("${loop.index}" if outside else "") + "", "% for i in (5, 6):",
+                                 ("<${loop.index}>" if outside else "") + inner, "% endfor", "% endfor"]
+                        exp = ""
+                        for ov in _loopvals(n):
+                            exp += str(ov["index"]) if outside else ""
+                            for iv in _loopvals(2):
+                                reps = 2 if cname == "ns-call-body" else 1
+                                exp += ("<%d>" % iv["index"] if outside else "") + ("[%s/%s/True]" % (iv[attr], ov[attr])) * reps
+                    else:
+                        read = "${loop.%s}" % attr
+                        inner = tmpl.replace("{R}", read).replace("${{", "${").replace("}}", "}")
+                        lines = ["% for o in " + it + ":", ("<${loop.index}>" if outside else "") + inner, "% endfor"]
+                        exp = ""
+                        for ov in _loopvals(n):
+                            reps = 2 if cname == "ns-call-body" else 1
+                            exp += ("<%d>" % ov["index"] if outside else "") + ("[%s]" % ov[attr]) * reps
+                    loop_text = "\n".join(lines) + "\n"
+                    if where == "body":
+                        text = pre + "\n" + loop_text
+                    else:
+                        text = pre + '\n<%def name="encl()">\n' + loop_text + "</%def>${encl()}\n"
+                    res.evaluations += 1
+                    res.count("loop_closure_renders")
+                    try:
+                        got = "".join(T(text).render_unicode().split())
+                    except Exception as e:
+                        got = "%s: %s" % (type(e).__name__, e)
+                    if got != exp:
+                        res.violate(
+                            "loop-in-closure",
+                            "`loop` read inside %s written in a `%% for` body (%s; loop body %s `loop` itself): template\n%s\nrendered %r, "
+                            "the innermost enclosing loop gives %r" % (cname, where, "also reads" if outside else "does not read", text, got, exp),
+                        )
+                    res.nontrivial("lc", text)
+
+
 def gen_cases(tier, seed):
     yield {"kind": "enable_loop"}
+    yield {"kind": "loop_closures"}
     n = 6000 if tier == "quick" else 80000
     depths = [1, 2, 2, 3] if tier == "quick" else [2, 3, 4, 5]
     per = 40
@@ -576,6 +648,8 @@ def run_case(case):
         run_batch(case, res)
     elif case["kind"] == "enable_loop":
         run_enable_loop(res)
+    elif case["kind"] == "loop_closures":
+        run_loop_closures(res)
     elif case["kind"] == "one":
         run_one(case["text"], case["model"], res, case)
     return res
